@@ -7,7 +7,7 @@ LEVEL = "model_checking"
 STUBS = ["array -> SymArray('i')", "hash_function -> dictionary key -> symbolic 64-bit vector"]
 ASSUMPTIONS = [
     "pre-state cells are DEFINED by the invariant cell(i,c) = sum of true counts of the keys whose row-i position is c, elements_added = sum of true counts (asserted again on the post-state, checked on the fresh object: inductive)",
-    "a universe of K keys with arbitrary 64-bit hash vectors (collisions in any pattern) and arbitrary true counts; total < 2^31-1 (the property's precondition)",
+    "a universe of K keys with arbitrary hash vectors in [0,2^64) (and in [-2^64, 2^65] on 2x2 / 3x2: hand-written strategies may return any int) (collisions in any pattern) and arbitrary true counts; total < 2^31-1 (the property's precondition)",
     "remove(key, n) only with n <= true count of that key (the property's precondition)",
 ]
 BOUNDS = {
@@ -29,7 +29,8 @@ def step(ctx, cfg):
     from probables import CountMinSketch
     w, d, K, op = cfg["w"], cfg["d"], cfg["K"], cfg["op"]
     c = CountMinSketch(width=w, depth=d)
-    H = [[ctx.hashval(f"h{k}_{i}", w) for i in range(d)] for k in range(K)]
+    lo, hi = (-(2 ** 64), 2 ** 65) if cfg.get("wide") else (0, 2 ** 64 - 1)
+    H = [[ctx.hashval(f"h{k}_{i}", w, lo, hi) for i in range(d)] for k in range(K)]
     Tc = [ctx.int(f"true{k}", 0, IMAX) for k in range(K)]
     pos = [[H[k][i] % w for i in range(d)] for k in range(K)]
     total = ctx.sum(Tc)
@@ -129,6 +130,9 @@ def jobs(tier):
     for w, d, K in geo:
         for op in ("add", "remove"):
             js.append({"h": "c02.step", "cfg": {"w": w, "d": d, "K": K, "op": op}, "opts": {"cost": w * d * K * K}})
+    for w, d, K in [(2, 2, 2), (3, 2, 2)]:
+        for op in ("add", "remove"):
+            js.append({"h": "c02.step", "cfg": {"w": w, "d": d, "K": K, "op": op, "wide": True}, "opts": {"cost": w * d * K * K}})
     for w, d in [(1, 1), (2, 2), (3, 2)]:
         js.append({"h": "c02.wrappers", "cfg": {"w": w, "d": d}})
     import itertools
